@@ -1,6 +1,7 @@
-(** Pinned statements of the C09 property theorems. *)
+(** Pinned statements of the C09 property theorems: compiled on every check, so a theorem
+    cannot be weakened silently. *)
 From V Require Import Base.Util Gql.Ast Writer.Wop Ts.TsType Ts.TsDen
-  C10.Model C10.Spec C10.DenLemmas C10.Proofs C10.Examples C09.Model C09.Spec C09.Proofs C09.Proofs2 C09.Examples C09.Properties.
+  C10.Model C10.Spec C10.DenLemmas C10.Proofs C10.Examples C09.Model C09.Spec C09.Proofs C09.Proofs2 C09.Proofs3 C09.Examples C09.Properties.
 
 Check (C09_variables_exact :
   forall o doc ms ns allow vds f v b,
@@ -8,6 +9,25 @@ Check (C09_variables_exact :
   has_type_b (vars_env ms) f (variables_type (mkOOpts ns allow) vds) v = Some b ->
   explicit_c o doc allow vds v = b).
 Print Assumptions C09_variables_exact.
+
+Check (C09_variables_exact_iff :
+  forall o doc ms ns allow vds v,
+  wf_schema o doc = true -> namespace_members o doc OpIn = Ok ms -> vars_wf doc vds = true ->
+  (In_type (vars_env ms) (variables_type (mkOOpts ns allow) vds) v <-> explicit_c o doc allow vds v = true)
+  /\ (NotIn_type (vars_env ms) (variables_type (mkOOpts ns allow) vds) v <-> explicit_c o doc allow vds v = false)).
+Print Assumptions C09_variables_exact_iff.
+
+Check (C09_sound_in :
+  forall o doc ms ns allow vds v,
+  wf_schema o doc = true -> namespace_members o doc OpIn = Ok ms -> vars_wf doc vds = true ->
+  In_type (vars_env ms) (variables_type (mkOOpts ns allow) vds) v -> coercible o doc vds v = true).
+Print Assumptions C09_sound_in.
+
+Check (C09_explicit_complete_in :
+  forall o doc ms ns allow vds v,
+  wf_schema o doc = true -> namespace_members o doc OpIn = Ok ms -> vars_wf doc vds = true ->
+  explicit_c o doc allow vds v = true -> In_type (vars_env ms) (variables_type (mkOOpts ns allow) vds) v).
+Print Assumptions C09_explicit_complete_in.
 
 Check (C09_sound :
   forall o doc ms ns allow vds f v,
